@@ -139,7 +139,7 @@ func genC03a(t *rapid.T) clCase {
 		case "sethw":
 			// Cls 1: land exactly on the last message of a segment, 2: on the
 			// first message of a segment, 0: anywhere
-			c.Ops = append(c.Ops, clOp{Op: "sethw2", Cls: rapid.IntRange(0, 2).Draw(t, "cls"), Sel: rapid.IntRange(0, 1000).Draw(t, "sel")})
+			c.Ops = append(c.Ops, clOp{Op: "sethw2", Cls: rapid.IntRange(0, 3).Draw(t, "cls"), Sel: rapid.IntRange(0, 1000).Draw(t, "sel")})
 		case "newreader":
 			c.Ops = append(c.Ops, clOp{Op: "newreader", Cls: rapid.IntRange(0, 5).Draw(t, "cls"), Sel: rapid.IntRange(0, 1000).Draw(t, "sel")})
 		case "read":
@@ -171,6 +171,20 @@ func c03Hook(readersP *[]*c03Reader, ntP *bool, o *vfutil.Obs) func(x *clExec, o
 		defer func() { *readersP = readers; *ntP = nt }()
 		switch op.Op {
 		case "sethw2":
+			if op.Cls == 3 {
+				// a lower value (a follower is handed its new leader's HW, which
+				// may lag its own): the HW must not move back
+				if x.m.HW < 0 {
+					return nil, true
+				}
+				lower := x.m.HW - 1 - int64(abs(op.Sel))%(x.m.HW+1)
+				x.l.SetHighWatermark(lower)
+				if after := x.l.HighWatermark(); after != x.m.HW {
+					return vfutil.Failf("C03/hw-decreased", "step %d: SetHighWatermark(%d) moved the HW from %d to %d", x.step, lower, x.m.HW, after), true
+				}
+				o.Label("sethw-lower-ignored")
+				return nil, true
+			}
 			if x.m.newest() <= x.m.HW {
 				return nil, true
 			}
